@@ -195,7 +195,8 @@ def run(run):
     quick = run.tier == "quick"
     run.extra["mc_instances"] = {}
     for nm in ("MC_DiskCrash_temprename_new", "MC_DiskCrash_temprename_old", "MC_DiskCrash_inplace_tolerant"):
-        res = mc.run_mc(nm, workers=1, module="MC_DiskCrash")
+        # the in-place protocol has no rename step by definition
+        res = mc.run_mc(nm, workers=1, module="MC_DiskCrash", allow_unused=("Rename",) if "inplace" in nm else ())
         run.tlc(res)
         run.extra["mc_instances"][nm] = {"states": res.distinct, "exhaustive": True}
     # negative instance: the in-place protocol with a strict reader MUST violate NeverPoisoned
